@@ -197,6 +197,8 @@ pub enum Op {
     Collect { t: u16 },
     RangeModify { t: u16, l: u16, r: u16, m: u32 },
     RangeAggregate { t: u16, l: u16, r: u16 },
+    /// `let e = t.remove_at(from); u.insert_at(to, e)`: the item handed out by remove_at goes back into a treap
+    Move { t: u16, from: u16, u: u16, to: u16 },
     /// `count` insertions in one op (positions derived from `v`): builds large treaps in few ops
     Bulk { t: u16, count: u16, v: u32, mode: u8 },
 }
@@ -525,6 +527,26 @@ pub fn run_case(case: &Case) -> CaseResult {
                     touched.push(t);
                 }
             }
+            Op::Move { t, from, u, to } => {
+                let t = pick(*t, np);
+                let u = pick(*u, np);
+                if !ip.pool[t].m.is_empty() && (t == u || ip.pool[u].m.len() < max_len) {
+                    if pending_before(&ip, t) || pending_before(&ip, u) {
+                        st.nontrivial = true;
+                        st.label("structural-op-with-pending-lazy");
+                    }
+                    let from = pick(*from, ip.pool[t].m.len());
+                    let want = ip.pool[t].m.remove(from);
+                    let got = ip.pool[t].t.remove_at(from);
+                    vensure!((got.id, got.val) == want, "remove_at/value", "step {}: remove_at({}) returned (id {}, value {}), model removed {:?}", step, from, got.id, got.val, want);
+                    let to = pick(*to, ip.pool[u].m.len() + 1);
+                    ip.pool[u].m.insert(to, want);
+                    ip.pool[u].t.insert_at(to, got);
+                    st.label("move-removed-item");
+                    touched.push(t);
+                    touched.push(u);
+                }
+            }
             Op::Bulk { t, count, v, mode } => {
                 let t = pick(*t, np);
                 let room = max_len.saturating_sub(ip.pool[t].m.len());
@@ -627,6 +649,7 @@ pub fn op() -> impl Strategy<Value = Op> {
         2 => sel().prop_map(|t| Op::Collect { t }),
         16 => (sel(), sel(), sel(), any::<u32>()).prop_map(|(t, l, r, m)| Op::RangeModify { t, l, r, m }),
         6 => (sel(), sel(), sel()).prop_map(|(t, l, r)| Op::RangeAggregate { t, l, r }),
+        6 => (sel(), sel(), sel(), sel()).prop_map(|(t, from, u, to)| Op::Move { t, from, u, to }),
     ]
 }
 
@@ -671,7 +694,8 @@ pub fn decode(data: &[u8]) -> Option<Case> {
             16 => Op::First { t: a },
             17 => Op::Last { t: a },
             18 => Op::Collect { t: a },
-            19 | 20 | 21 | 22 => Op::RangeModify { t: a, l: c, r: d, m: v },
+            19 | 20 | 21 => Op::RangeModify { t: a, l: c, r: d, m: v },
+            22 => Op::Move { t: a, from: c, u: d, to: v as u16 },
             _ => Op::RangeAggregate { t: a, l: c, r: d },
         });
         if ops.len() >= 150 {
